@@ -17,8 +17,8 @@ using namespace IMATH_NAMESPACE;
     WRAP void w_line_closest_line##S (const Line3<T>* l, const Line3<T>* m, Vec3<T>* r) { *r = l->closestPointTo (*m); } \
     WRAP T w_line_dist_line##S (const Line3<T>* l, const Line3<T>* m) { return l->distanceTo (*m); }                    \
     WRAP int w_closest_points##S (const Line3<T>* l, const Line3<T>* m, Vec3<T>* p1, Vec3<T>* p2) { return closestPoints (*l, *m, *p1, *p2); } \
-    WRAP int w_tri_intersect##S (const Line3<T>* l, const Vec3<T>* v0, const Vec3<T>* v1, const Vec3<T>* v2, Vec3<T>* pt, Vec3<T>* bary, int* front) \
-    { bool f = false; bool r = intersect (*l, *v0, *v1, *v2, *pt, *bary, f); *front = f; return r; }                    \
+    WRAP int w_tri_intersect##S (const Line3<T>* l, const Vec3<T>* v0, const Vec3<T>* v1, const Vec3<T>* v2, Vec3<T>* pt, Vec3<T>* bary, T* front) \
+    { bool f = false; bool r = intersect (*l, *v0, *v1, *v2, *pt, *bary, f); *front = f ? T (1) : T (0); return r; }                    \
     WRAP void w_closest_vertex_line##S (const Vec3<T>* v0, const Vec3<T>* v1, const Vec3<T>* v2, const Line3<T>* l, Vec3<T>* r) { *r = closestVertex (*v0, *v1, *v2, *l); } \
     WRAP void w_rotate_point##S (const Vec3<T>* p, const Line3<T>* l, T ang, Vec3<T>* r) { *r = rotatePoint (*p, *l, ang); } \
     WRAP void w_plane_set3##S (const Vec3<T>* a, const Vec3<T>* b, const Vec3<T>* c, Plane3<T>* p) { p->set (*a, *b, *c); } \
